@@ -7,7 +7,7 @@ CHECKS = {
          "DESIGN.md §4 C01",
          "Generated programs x stdin texts are executed command by command on the library interpreter and on an independent reference interpreter over exact rationals; stacks, selected stack, next location and both output streams are compared after every step, and the way the run ends is compared on the real binary. Exploration only: holds on the generated cases, no proof.",
          "trusted: reference interpreter + reference arithmetic in /verif/harness (self-tested against the repository's golden programs, i128 and python3); domain excludes counts >= 2^31 and output values >= 2^32 as the property does"),
- "C02": ("differential PBT: optimisation level 1/2 vs level 0 on the real binary (exact) and in-process under a step budget (prefix-compatibility); libFuzzer target fz_c02 in thorough",
+ "C02": ("differential PBT: optimisation level 1/2 vs level 0 on the real binary (exact) and in-process under a step budget (prefix-compatibility)",
          "DESIGN.md §4 C02",
          "Generated programs x stdin are run at -O0/-O1/-O2; stdout, stderr and exit status must be identical (encoding-error case: same diagnostic kind, prefixes allowed); non-terminating programs are compared in-process for prefix-compatible output. Exploration only.",
          "trusted: the level-0 interpreter as the yardstick (tied to the definition by C01); reference model only classifies termination"),
@@ -19,23 +19,23 @@ CHECKS = {
          "DESIGN.md §4 C04",
          "Arbitrary Unicode strings are parsed by the implementation and by a reference parser written from the grammar; kind, counts, area tree, location and raw text of every command are compared; no panic. Exploration only.",
          "trusted: reference parser (self-tested on the repository's documented examples)"),
- "C05": ("differential PBT vs independent base-10^9 reference integers (boundary-limb generators), python3 cross-oracle in thorough",
+ "C05": ("differential PBT vs independent base-10^9 reference integers (boundary-limb generators, every API form); python3 cross-oracle and libFuzzer target fz_num in thorough",
          "DESIGN.md §4 C05",
          "All arithmetic, comparison, gcd, assign variants and the machine-integer constructor are compared with an independent exact reference on boundary-biased operands; results are checked structurally (normal form) and in print. Exploration only.",
          "trusted: RefInt (cross-checked against i128 on every run, python3 in thorough)"),
- "C06": ("differential PBT vs reference rationals over expression trees + metamorphic equal-value routes",
+ "C06": ("differential PBT vs reference rationals over expression trees + metamorphic equal-value routes; libFuzzer target fz_num in thorough",
          "DESIGN.md §4 C06",
          "Expression trees over rationals are evaluated on the implementation and on reference rationals; every node must print canonically and agree on sign/NaN/floor; equal values via different routes must be ==. Exploration only.",
          "trusted: RefRat/RefInt"),
- "C07": ("differential PBT vs reference order on targeted pair shapes; branch selection vs executable definition",
+ "C07": ("differential PBT vs reference order on targeted pair shapes; branch selection vs executable definition; libFuzzer target fz_num in thorough",
          "DESIGN.md §4 C07",
          "Ordered pairs (incl. value vs its truncation/floor/ceiling, same numerator/denominator, NaN) are compared with the reference order in both directions; area::calc is compared with the definition on generated trees/values. Exploration only.",
          "trusted: RefRat order"),
- "C08": ("round-trip PBT: render(command list, junk plan) -> parse; parse(concat raw) = parse; inverse of the check listing on the real binary",
+ "C08": ("round-trip PBT: render(command list, junk plan) -> parse; parse(concat raw) = parse; inverse of the check listing on the real binary (incl. block-edge files); libFuzzer target fz_c04 in thorough",
          "DESIGN.md §4 C08",
          "Generated command lists are rendered with junk in every ignorable place and must parse back identically; raw texts must re-parse to the same commands for arbitrary strings; the `check` listing is inverted and must determine each command. Exploration only.",
          "trusted: the renderer only puts junk where the grammar ignores it (sound by construction, cross-checked by the reference parser)"),
- "C09": ("round-trip PBT + independent radix renderer",
+ "C09": ("round-trip PBT + independent radix renderer; libFuzzer target fz_num in thorough",
          "DESIGN.md §4 C09",
          "Integers x bases 2..36 and rationals incl. NaN: implementation text = reference rendering, and both texts read back to the value. Exploration only.",
          "trusted: RefInt::to_radix (cross-checked against i128)"),
